@@ -125,6 +125,8 @@ func runC04(c *Ctx) {
 			switch {
 			case c08Classify(c, top) == "success":
 				c.OK("C04.E2-latest-sync-writers", key, cs.In.Pos(), "success notifier (its call sites are gated below)")
+			case c08Classify(c, top) == "unified":
+				c.OK("C04.E2-latest-sync-writers", key, cs.In.Pos(), "the notifier for both outcomes: recorded only on the nil edge of the error it is handed (its nil-error call sites are gated below)")
 			case top.Name() == "SetLatestSync":
 				_, g := c.Guarded(cs.In, Bin("==", Op("param", ""), Any()), false)
 				c.Check(g, "C04.E2-latest-sync-writers", key, cs.In.Pos(), "explicit setter, rejects the undefined CID", "explicit setter stores an undefined CID")
@@ -148,7 +150,7 @@ func runC04(c *Ctx) {
 	for _, f := range c.Funcs(dagsyncPkg) {
 		for _, cs := range c.Calls(f.SSA, Any()) {
 			sc := cs.In.Common().StaticCallee()
-			if sc == nil || c08Classify(c, sc) != "success" {
+			if sc == nil || c08ClassifySite(c, cs.In) != "success" {
 				continue
 			}
 			var herr *X
@@ -196,7 +198,7 @@ func runC04(c *Ctx) {
 					}
 					if ci, ok := in.(ssa.CallInstruction); ok {
 						if sc := ci.Common().StaticCallee(); sc != nil {
-							switch c08Classify(c, sc) {
+							switch c08ClassifySite(c, ci) {
 							case "failure":
 								nFail++
 							case "success":
@@ -216,7 +218,7 @@ func runC04(c *Ctx) {
 				for _, b := range region {
 					for _, in := range b.Instrs {
 						if ci, ok := in.(ssa.CallInstruction); ok {
-							if sc := ci.Common().StaticCallee(); sc != nil && c08Classify(c, sc) == "failure" {
+							if sc := ci.Common().StaticCallee(); sc != nil && c08ClassifySite(c, ci) == "failure" {
 								x := c.CallX(ci)
 								okArgs := false
 								for _, a := range x.Args {
